@@ -143,6 +143,20 @@ mod imp {
         })));
     }
 
+    thread_local! {
+        /// thread number found in the prefix of the last metric this thread handed to a global client's sink
+        static LAST_PREFIX: Cell<usize> = const { Cell::new(0) };
+    }
+
+    struct PrefixSink;
+    impl cadence::MetricSink for PrefixSink {
+        fn emit(&self, m: &str) -> std::io::Result<usize> {
+            let id = m.strip_prefix('t').and_then(|r| r.split('.').next()).and_then(|n| n.parse().ok()).unwrap_or(0);
+            LAST_PREFIX.with(|c| c.set(id));
+            Ok(m.len())
+        }
+    }
+
     /// value carried by a global client: the thread number it was built with, read back from a metric's text
     fn client_id(c: &cadence::StatsdClient) -> usize {
         use cadence::prelude::*;
@@ -180,7 +194,7 @@ mod imp {
                 for c in prog.chars() {
                     let res = match c {
                         's' if global => {
-                            let client = cadence::StatsdClient::from_sink(&format!("t{}", t + 1), cadence::NopMetricSink);
+                            let client = cadence::StatsdClient::from_sink(&format!("t{}", t + 1), PrefixSink);
                             cadence_macros::set_global_default(client);
                             "u".to_string()
                         }
@@ -207,6 +221,16 @@ mod imp {
                             }
                         }
                         'd' if global => "D".to_string(),
+                        // a macro invocation: `get_global_default().unwrap()` and a send through that client
+                        'm' if global => {
+                            LAST_PREFIX.with(|c| c.set(0));
+                            match std::panic::catch_unwind(|| {
+                                cadence_macros::statsd_count!("m", 1i64);
+                            }) {
+                                Err(_) => "N".to_string(),
+                                Ok(()) => format!("P{}@0", LAST_PREFIX.with(|c| c.get())),
+                            }
+                        }
                         's' => {
                             holder.set(t + 1);
                             "u".to_string()
@@ -304,6 +328,13 @@ fn run_line(line: &str) -> Option<String> {
         return None;
     }
     let f: Vec<&str> = line.split(' ').collect();
+    if f[0] == "holdermiri" && f.len() == 2 {
+        return Some(format!("{} => {}", line, run_miri(f[1].parse().unwrap_or(8))));
+    }
+    if f[0] == "holdern" && f.len() == 3 {
+        // the same case in the sibling binary built with debug assertions and overflow checks off
+        return Some(run_in_nodebug(&format!("holder {} {}", f[1], f[2])));
+    }
     if f[0] != "holder" || f.len() != 3 {
         return Some(format!("{} => malformed", line));
     }
@@ -322,6 +353,71 @@ fn run_line(line: &str) -> Option<String> {
     let (used, obs) = imp::run_case(&programs, &schedule, use_default);
     let sch = if used.is_empty() { "-".to_string() } else { used.iter().map(|x| x.to_string()).collect::<Vec<_>>().join(",") };
     Some(format!("holder {} {} => {}", f[1], sch, obs))
+}
+
+fn run_in_nodebug(case: &str) -> String {
+    use std::io::Read;
+    let mut exe = std::env::current_exe().unwrap();
+    let name = exe.file_name().unwrap().to_owned();
+    exe.pop();
+    exe.pop();
+    exe.push("nodebug");
+    exe.push(name);
+    let renamed = |l: &str| l.replacen("holder ", "holdern ", 1);
+    let child = std::process::Command::new(exe)
+        .arg("replay")
+        .stdin(std::process::Stdio::piped())
+        .stdout(std::process::Stdio::piped())
+        .stderr(std::process::Stdio::null())
+        .spawn();
+    let mut child = match child {
+        Ok(c) => c,
+        Err(_) => return format!("{} => nodebug-binary-missing", renamed(case)),
+    };
+    let _ = child.stdin.take().unwrap().write_all(format!("{}\n", case).as_bytes());
+    let mut out = String::new();
+    let _ = child.stdout.take().unwrap().read_to_string(&mut out);
+    let _ = child.wait();
+    if out.trim().is_empty() {
+        return format!("{} => nodebug-child-crashed", renamed(case));
+    }
+    renamed(out.trim())
+}
+
+/// real threads on the holder under Miri (`harness-miri/`, nightly toolchain): its data-race detector and
+/// aliasing model see what the plain code does through the pointer fetched from the cell, which the shim cannot
+fn run_miri(seeds: usize) -> String {
+    let dir = match std::env::current_exe().ok().and_then(|e| e.ancestors().nth(4).map(|r| r.join("harness-miri"))) {
+        Some(d) if d.join("Cargo.toml").exists() => d,
+        _ => return "miri-unavailable".to_string(),
+    };
+    let _ = std::fs::copy("/repo/Cargo.lock", dir.join("Cargo.lock"));
+    let out = std::process::Command::new("cargo")
+        .args(["+nightly", "miri", "run", "--offline"])
+        .current_dir(&dir)
+        .env("MIRIFLAGS", format!("-Zmiri-many-seeds=0..{}", seeds))
+        .env("CARGO_NET_OFFLINE", "true")
+        .output();
+    let out = match out {
+        Ok(o) => o,
+        Err(_) => return "miri-unavailable".to_string(),
+    };
+    let text = format!("{}\n{}", String::from_utf8_lossy(&out.stdout), String::from_utf8_lossy(&out.stderr));
+    if let Some(l) = text.lines().find(|l| l.contains("Undefined Behavior")) {
+        let what: String = l.split("Undefined Behavior:").nth(1).unwrap_or(l).trim().chars().take(160).collect();
+        return format!("undefined-behaviour:{}", what.replace(' ', "-").replace(';', ","));
+    }
+    if text.contains("panicked at") || text.contains("FAILING SEED") {
+        return "assertion-failed-under-miri".to_string();
+    }
+    if out.status.success() && text.matches("miri-ok").count() >= 1 {
+        return "ok".to_string();
+    }
+    if text.contains("error: could not compile") || text.contains("error[E") {
+        return "does-not-compile".to_string();
+    }
+    // no nightly toolchain / no miri component in this sandbox: nothing concluded
+    "miri-unavailable".to_string()
 }
 
 static IN_CHILD: std::sync::atomic::AtomicBool = std::sync::atomic::AtomicBool::new(false);
@@ -348,7 +444,7 @@ fn run_in_child(case: &str) -> String {
 
 fn ops_of(p: &str) -> usize {
     // two grants per shim operation
-    2 * p.chars().map(|c| match c { 's' => 3, 'g' => 2, 'd' => 0, _ => 1 }).sum::<usize>()
+    2 * p.chars().map(|c| match c { 's' => 3, 'g' | 'm' => 2, 'd' => 0, _ => 1 }).sum::<usize>()
 }
 
 fn multinomial(counts: &[usize]) -> f64 {
@@ -431,6 +527,12 @@ fn main() {
         vec!["G:s", "s", "i"],
         vec!["G:s", "s", "g"],
         vec!["G:si", "sg"],
+        // a thread that sets twice; a macro invocation racing the set
+        vec!["G:ss", "g"],
+        vec!["G:sgs", "i"],
+        vec!["G:s", "m"],
+        vec!["G:s", "s", "m"],
+        vec!["G:sm", "m"],
     ];
     for set in &sets {
         let is_global = set[0].starts_with("G:");
@@ -464,11 +566,18 @@ fn main() {
                 all.push(sch);
             }
         }
-        for sch in all {
+        for (k, sch) in all.into_iter().enumerate() {
             let l = format!("holder {} {}", set.join("/"), sch.iter().map(|x| x.to_string()).collect::<Vec<_>>().join(","));
             if let Some(o) = run_line(&l) {
                 writeln!(out, "{}", o).unwrap();
                 count += 1;
+            }
+            // the first schedules of every set also run in the binary built without debug assertions
+            if !is_global && k < 12 {
+                if let Some(o) = run_line(&l.replacen("holder ", "holdern ", 1)) {
+                    writeln!(out, "{}", o).unwrap();
+                    count += 1;
+                }
             }
         }
     }
@@ -486,6 +595,10 @@ fn main() {
             writeln!(out, "{}", o).unwrap();
             count += 1;
         }
+    }
+    if let Some(o) = run_line(&format!("holdermiri {}", if tier == "quick" { 16 } else { 256 })) {
+        writeln!(out, "{}", o).unwrap();
+        count += 1;
     }
     eprintln!("holder: {} cases", count);
 }
